@@ -100,7 +100,7 @@ func (es *ecdsaCryptoSigner) Sign(rand io.Reader, content []byte) ([]byte, error
 // entropy from rand.
 // The resulting signature should follow RFC 8152 section 8.
 func (es *ecdsaCryptoSigner) SignDigest(rand io.Reader, digest []byte) ([]byte, error) {
-	sigASN1, err := es.signer.Sign(rand, digest, nil)
+	sigASN1, err := es.signer.Sign(rand, digest, es.alg.hashFunc())
 	if err != nil {
 		return nil, err
 	}
